@@ -57,6 +57,8 @@ def run(ctx):
     for kid, (pattern, fl, extra) in sorted(known.items()):
         ctx.known_finding(kid, 'glob(%r, %s) returns %r' % (pattern, fl, extra))
     ctx.counted('glob vs segment-wise interpretation', ev, nt, samples, {'known_sites_hit': sorted(known)})
+    nm = globcommon.mixed_abs_rel(ctx, rng, 3 if ctx.quick else 12)
+    ctx.counted('lists mixing absolute and relative patterns', nm, nm // 2, [{'patterns': ['<root>/other/*', 'sub/*']}])
     return ctx.finish(RULE)
 
 
